@@ -118,6 +118,41 @@ def install(lib):
     rnd.custom_yields = SelectorYields
     rnd.loops = {0: SelectorLoop()}
     C["utils"]["Random_edge_selector"] = rnd
+
+    # get_edge_selector(sel_type, node, env, edge_type): the model used by reset() (nodes_sl.builtin)
+    def known(c):
+        t = c.args["sel_type"]
+        return z3.Or(V.eq(t, VStr("RANDOM")), V.eq(t, VStr("ROUND_ROBIN")))
+
+    def side_ok(c):
+        # str.lower is an uninterpreted function that is exact on the interned constants (pyvc/execute.py)
+        low = z3.Function("str_lower", z3.IntSort(), z3.IntSort())
+        e = low(c.args["edge_type"].t)
+        return z3.Or(e == V.str_const("in"), e == V.str_const("out"))
+
+    def ges_result(c):
+        r = c.res
+        from pyvc.execute import VGen
+        if not isinstance(r, VGen):
+            return z3.BoolVal(False)
+        t = c.args["sel_type"]
+        want = {"Random_edge_selector": "RANDOM", "RoundRobin_edge_selector": "ROUND_ROBIN"}.get(r.name)
+        if want is None:
+            return z3.BoolVal(False)
+        a = r.args
+        node_ok = "node" in a and isinstance(a["node"], VObj) and a["node"].t.eq(c.args["node"].t)
+        return z3.And(V.eq(t, VStr(want)), z3.BoolVal(bool(node_ok)))
+    ges = FnContract(
+        "get_edge_selector", [("sel_type", ("str",), None), ("node", ("obj", "nodeobj"), None), ("env", ("env",), None),
+                              ("edge_type", ("str",), None)],
+        excs=[ExcCase("ValueError", lambda c: z3.And(side_ok(c), z3.Not(known(c))), "unknown-selection-type", unchanged=True,
+                      props=("C20", "C15")),
+              ExcCase("AssertionError", lambda c: z3.Not(side_ok(c)), "side-is-neither-in-nor-out", unchanged=True, props=("C20",))],
+        normal_requires=lambda c: z3.And(side_ok(c), known(c)),
+        post=lambda c: [Structural("returns-the-selector-of-that-name-for-this-node", ges_result, ("C15",))],
+        uses_inv=False, keeps_inv=False, result_kind=("opaque",), props=("C15", "C20"))
+    ges.no_frame = True
+    C["utils"]["get_edge_selector"] = ges
     install_helpers(lib)
 
 
@@ -158,6 +193,24 @@ def install_helpers(lib):
         "add_item", [("item", ("obj", "item"), None)],
         post=lambda c: [Def("items", V.list_append(c.old.f["items"], c.args["item"]), ("C16", "C03"))],
         modifies=("items",), uses_inv=False, keeps_inv=False, props=("C16", "C03"))
+    # BaseFlowItem.update_node_event(node_id, env, event_type): the model used by the node bodies (nodes_proc.item_call)
+    def une_post(c):
+        o, n = c.old, c.new
+        k = c.args["event_type"]
+        entry, exit_ = V.eq(k, VStr("entry")), V.eq(k, VStr("exit"))
+        return [
+            Clause("entry-stamp", lambda c: z3.If(entry, z3.And(z3.Not(n.f["timestamp_node_entry"].isnone),
+                                                                n.f["timestamp_node_entry"].val.t == o.now),
+                                                  V.eq(n.f["timestamp_node_entry"], o.f["timestamp_node_entry"])), ("C18",)),
+            Clause("exit-stamp", lambda c: z3.If(z3.And(z3.Not(entry), exit_),
+                                                 z3.And(z3.Not(n.f["timestamp_node_exit"].isnone),
+                                                        n.f["timestamp_node_exit"].val.t == o.now),
+                                                 V.eq(n.f["timestamp_node_exit"], o.f["timestamp_node_exit"])), ("C18",)),
+        ]
+    C["BaseFlowItem"]["update_node_event"] = FnContract(
+        "update_node_event", [("node_id", ("obj", "nodeid"), None), ("env", ("env",), None), ("event_type", ("str",), VStr("entry"))],
+        post=une_post, modifies=("timestamp_node_entry", "timestamp_node_exit", "current_node_id", "stats"),
+        uses_inv=False, keeps_inv=False, props=("C18", "C20"))
     # BaseFlowItem.set_creation(source_id, env): stamps the creation time with the current time (C18)
     C["BaseFlowItem"]["set_creation"] = FnContract(
         "set_creation", [("source_id", ("obj", "nodeid"), None), ("env", ("env",), None)],
